@@ -361,6 +361,13 @@ class TunnelHTTPConnection(ConnectionInterface):
         return self._connection.info()
 
     def is_available(self) -> bool:
+        if not self._connected and not self._connection.is_closed():
+            # If HTTP/2 support is enabled, and the tunnelled connection could
+            # end up as HTTP/2 then we should indicate the connection as being
+            # available to service multiple requests.
+            return self._http2 and (
+                self._remote_origin.scheme == b"https" or not self._http1
+            )
         return self._connection.is_available()
 
     def has_expired(self) -> bool:
